@@ -34,6 +34,13 @@ pub fn run(ctx: &RunCtx) -> PropResult {
         p2.gen = GenParams { nkeys: 2, ts_span: 3, metas: 2, max_ops: ctx.tier.pick(110, 200) as usize, w_write: 60, w_delete: 15, w_switch: 6, w_wait: 3, w_reopen: 3, ..Default::default() };
         run_profile(ctx, &p2, ctx.tier.pick(500, 15_000), &mut report);
     }
+    {
+        // scale: >256 versions of a key in one blob with long runs of equal timestamps; >64 blobs with the top-ranked record in one of the oldest
+        let mut p3 = profile();
+        p3.phase = "history-scale";
+        p3.gen = GenParams { nkeys: 3, ts_span: 4, metas: 2, max_ops: 12, w_write: 40, w_delete: 25, w_switch: 10, w_wait: 5, w_reopen: 12, ..Default::default() };
+        run_profile_scale(ctx, &p3, ctx.tier.pick(48, 1500), &mut report);
+    }
     PropResult {
         report,
         level: "exploration",
